@@ -94,16 +94,33 @@ typedef struct hp_urec hp_rec_t;
 #endif
 
 /*
+ * Exact-size pointer buffer of `slots` pointers.  The size is case-split into constants: CBMC's encoding of a
+ * symbolic-size array of pointers (array theory over byte_extract) needs > 16 GB even for 3 elements, a
+ * constant-size array is flattened (measured: 6.7 M vs 0.2 M variables).
+ */
+static void **
+hp_alloc_slots(size_t slots)
+{
+#define HP_AS_(k) if ((k) <= HP_MAXALLOC / sizeof(void *) && slots == (k)) return (malloc((k) * sizeof(void *)))
+	HP_AS_(0); HP_AS_(1); HP_AS_(2); HP_AS_(3); HP_AS_(4); HP_AS_(5); HP_AS_(6); HP_AS_(7); HP_AS_(8);
+	HP_AS_(9); HP_AS_(10); HP_AS_(11); HP_AS_(12); HP_AS_(13); HP_AS_(14); HP_AS_(15); HP_AS_(16);
+#undef HP_AS_
+	__CPROVER_assume(0);
+	return (NULL);
+}
+
+/*
  * HP_MK_LIST(L, n): an arbitrary well-formed pointer list of n <= HP_MAXN elements in an allocation of
  * n*8 .. HP_MAXALLOC bytes; every element points to one of HP_MAXN record objects R[0..HP_MAXN) with arbitrary
  * contents (duplicates allowed; the handle invariant, where assumed, excludes them).
  */
 #define HP_MK_LIST(L, n) \
-	IN(size_t, n); IN(size_t, L##_alloc); \
-	__CPROVER_assume(n <= HP_MAXN && n * sizeof(void *) <= L##_alloc && L##_alloc <= HP_MAXALLOC); \
+	IN(size_t, n); IN(size_t, L##_slots); \
+	__CPROVER_assume(n <= HP_MAXN && n <= L##_slots && L##_slots <= HP_MAXALLOC / sizeof(void *)); \
+	size_t L##_alloc = L##_slots * sizeof(void *); \
 	struct elasticarray * L##_ea = malloc(sizeof(struct elasticarray)); \
 	__CPROVER_assume(L##_ea != NULL); \
-	void ** L##_buf = malloc(L##_alloc); \
+	void ** L##_buf = hp_alloc_slots(L##_slots); \
 	__CPROVER_assume(L##_buf != NULL); \
 	L##_ea->size = n * sizeof(void *); L##_ea->alloc = L##_alloc; \
 	if (L##_alloc == 0) { free(L##_buf); L##_ea->buf = NULL; } else L##_ea->buf = L##_buf; \
